@@ -104,7 +104,7 @@ func checkC12(p *Program, r *Report) {
 	r.Assumptions = append(r.Assumptions,
 		"a model that panics conserves nothing, and the decay-disabled dissolved-constituent storage model named by the property is exactly the delegating path (R12.1, R12.3)",
 		"R12.2 decides the budget per timestep and per CFG path; closure over a period follows by induction on steps given that states are threaded (C06)",
-		"clamps against constants (math.Max(x,0), MinFloat64(100,·)) are read as their non-constant argument: the budget is decided for the case in which they do not bind; non-negativity as such, the remobilisation bound and StorageTrapAll (no timestep parameter) are NOT decided",
+		"clamps against constants (math.Max(x,0), MinFloat64(100,·)) are read as their non-constant argument: the budget is decided for the case in which they do not bind; non-negativity as such and the remobilisation bound are NOT decided; StorageTrapAll (no time loop, no timestep parameter) is decided by R12.7 element for element, not in physical units",
 		"the table of mass terms per model (OW-SPEC names) in tool/c12bal.go restates the property and is part of the checker")
 	checkConversionScales(p, r, "R12.6", []string{"models/routing", "models/storage"})
 	sum := computeNilSummaries(p)
